@@ -44,7 +44,8 @@ NEAR = {
     "str": ["", "a/b"],
     "int": ["", "-1", "1x", "x1", "١٢", "1.0", "１２", "12\n", " 12"],
     "decimal": ["1x2", "1.", ".5", "1..2", "-1.5", "1,5", "nan", "inf", "1e3", "١.٢", "1.5\n"],
-    "uuid": [U.upper(), U[:-1], U + "0", U.replace("-", ""), U.replace("-", "_"), "g" + U[1:]],
+    "uuid": [U.upper(), U[:-1], U + "0", U.replace("-", ""), U.replace("-", "_"), "g" + U[1:],
+             U[:7] + "-" + U[7] + U[9:], U.replace("-", "") + "----", "-" * 36, U[:35] + "-"],  # 36 characters of hex digits and hyphens, the hyphens elsewhere
     "date": ["2021-13-45", "2021-02-30", "0000-01-01", "2021-3-7", "21-03-07", "2021/03/07", "2021-03-07\n", "2023-02-29"],
     "any": [],
 }
@@ -156,7 +157,9 @@ class Table:
 def dispatch_wsgi(table, path, stale=False, root="", raw_latin1=False):
     table.rec.hit = None
     # raw_latin1: a client that does not use UTF-8 sent the path's characters as single bytes (PEP 3333 hands them over as they are)
-    req = drivers.Req(path=path.encode("latin-1" if raw_latin1 else "utf-8"), root=root.encode("utf-8"))
+    # dispatch is by path: the method (any of them, an empty path below a mount included) plays no part in it
+    method = ("GET", "POST", "OPTIONS", "HEAD", "DELETE", "CONNECT", "GET")[len(path) % 7]
+    req = drivers.Req(method=method, path=path.encode("latin-1" if raw_latin1 else "utf-8"), root=root.encode("utf-8"))
     env = drivers.to_environ(req)
     if stale:  # e.g. left behind by an outer router
         env["PATH_PARAMS"] = {"stale": "outer"}
@@ -166,7 +169,7 @@ def dispatch_wsgi(table, path, stale=False, root="", raw_latin1=False):
 
 def dispatch_asgi(table, path, stale=False, root=""):
     table.rec.hit = None
-    scope = drivers.to_scope(drivers.Req(path=path.encode("utf-8"), root=root.encode("utf-8")))
+    scope = drivers.to_scope(drivers.Req(method=("GET", "POST", "OPTIONS", "HEAD", "DELETE", "CONNECT", "GET")[len(path) % 7], path=path.encode("utf-8"), root=root.encode("utf-8")))
     if stale:
         scope["path_params"] = {"stale": "outer"}
     res = drivers.run_asgi(table.asgi, scope)
